@@ -479,57 +479,7 @@ func runC01(c *eng.Ctx) {
 	})
 
 	// ---- family ids are the store's own sequence ----------------------------------------------------------------------------------------
-	c.Rule("PROV", "kv.store.CreateFamily{id of a new family = next value of the store's sequence}", func() {
-		f := c.Fn("kv.store.CreateFamily")
-		n := 0
-		for _, b := range eng.BlocksT(f) {
-			for _, in := range b.Instrs {
-				st, ok := in.(*ssa.Store)
-				if !ok {
-					continue
-				}
-				fa, ok := st.Addr.(*ssa.FieldAddr)
-				if !ok || eng.FieldKeyOfAddr(fa) != "kv.FamilyOption.ID" {
-					continue
-				}
-				n++
-				fromSeq := eng.DependsOnField(st.Val, "kv.store.familySeq")
-				fromArg := eng.DependsOnField(st.Val, "kv.FamilyOption.ID")
-				c.Check(fromSeq && !fromArg, fmt.Sprintf("id-from-sequence[%d]", n), in, f, "the id written into the store info is taken from s.familySeq", "stores "+p.Desc(st.Val))
-				conds, _ := eng.GuardingConds(in.Parent(), in)
-				for _, cd := range conds {
-					c.Check(!eng.DependsOnField(cd, "kv.FamilyOption.ID"), fmt.Sprintf("id-not-optional[%d]", n), in, f,
-						"whether a new family gets a fresh id does not depend on the id in the option the caller passed: rollup creates target families with the SOURCE family's option (id included), and the manifest keys every record by family id",
-						"assignment guarded by "+p.Desc(cd))
-				}
-			}
-		}
-		c.Check(n >= 1, "id-assigned", nil, f, "CreateFamily assigns the id of a new family", "")
-		// the sequence never moves to a caller-supplied value
-		seqFns := append(p.FuncsWithPrefix("kv.store."), p.FuncsWithPrefix("kv.newStore")...)
-		nSeq := 0
-		for _, fn := range seqFns {
-			for _, b := range fn.Blocks {
-				for _, in := range b.Instrs {
-					fa, method, call := eng.AtomicOp(in)
-					if fa == nil || eng.FieldKeyOfAddr(fa) != "kv.store.familySeq" || method != "Store" {
-						continue
-					}
-					args := eng.CallArgs(call)
-					v := args[len(args)-1]
-					c.Check(!eng.DependsOnField(v, "kv.FamilyOption.ID") || p.FuncKey(fn) != "kv.store.CreateFamily", "sequence-set@"+p.FuncKey(fn), in, fn,
-						"the family sequence is set only from the persisted store info (on open), never from a CreateFamily argument", "stores "+p.Desc(v))
-					if p.FuncKey(fn) != "kv.store.CreateFamily" {
-						nSeq++
-						// on open the sequence continues after the largest persisted ID (ids are not dense: a failed OPTIONS write burns one)
-						c.Check(eng.DependsOnField(v, "kv.FamilyOption.ID"), "sequence-restored-from-ids@"+p.FuncKey(fn), in, fn,
-							"on open the family sequence is restored from the persisted family ids (their maximum), not from how many families there are", "stores "+p.Desc(v))
-					}
-				}
-			}
-		}
-		c.Check(nSeq >= 1, "sequence-restored-on-open", nil, nil, "opening a store restores the family sequence", fmt.Sprintf("%d stores outside CreateFamily", nSeq))
-	})
+	c.Rule("PROV", "kv.store.CreateFamily{id of a new family = next value of the store's sequence}", func() { familyIDFromSequence(c) })
 
 	c.Rule("OWNER", "kv{file-system mutators}", func() {
 		owner(c, "call of writeFileFunc", eng.AnyCallTo("var:kv/version.writeFileFunc"), []string{vsT + ".setCurrent"}, 1)
@@ -1016,4 +966,58 @@ func newTableBuilderClaimsFirst(c *eng.Ctx) {
 	ma := eng.CallArgs(mk.Instr.(*ssa.Call))
 	c.Check(eng.CallArgs(pe.Instr.(*ssa.Call))[0] == nv && ma[0] == nv && eng.DependsOn(ma[1], func(x ssa.Value) bool { return x == nv }), "one-number", mk.Instr, f,
 		"the pending mark, the builder's number and the file name all use the one allocated number", "")
+}
+
+func familyIDFromSequence(c *eng.Ctx) {
+	p := c.P
+	_ = p
+	f := c.Fn("kv.store.CreateFamily")
+	n := 0
+	for _, b := range eng.BlocksT(f) {
+		for _, in := range b.Instrs {
+			st, ok := in.(*ssa.Store)
+			if !ok {
+				continue
+			}
+			fa, ok := st.Addr.(*ssa.FieldAddr)
+			if !ok || eng.FieldKeyOfAddr(fa) != "kv.FamilyOption.ID" {
+				continue
+			}
+			n++
+			fromSeq := eng.DependsOnField(st.Val, "kv.store.familySeq")
+			fromArg := eng.DependsOnField(st.Val, "kv.FamilyOption.ID")
+			c.Check(fromSeq && !fromArg, fmt.Sprintf("id-from-sequence[%d]", n), in, f, "the id written into the store info is taken from s.familySeq", "stores "+p.Desc(st.Val))
+			conds, _ := eng.GuardingConds(in.Parent(), in)
+			for _, cd := range conds {
+				c.Check(!eng.DependsOnField(cd, "kv.FamilyOption.ID"), fmt.Sprintf("id-not-optional[%d]", n), in, f,
+					"whether a new family gets a fresh id does not depend on the id in the option the caller passed: rollup creates target families with the SOURCE family's option (id included), and the manifest keys every record by family id",
+					"assignment guarded by "+p.Desc(cd))
+			}
+		}
+	}
+	c.Check(n >= 1, "id-assigned", nil, f, "CreateFamily assigns the id of a new family", "")
+	// the sequence never moves to a caller-supplied value
+	seqFns := append(p.FuncsWithPrefix("kv.store."), p.FuncsWithPrefix("kv.newStore")...)
+	nSeq := 0
+	for _, fn := range seqFns {
+		for _, b := range fn.Blocks {
+			for _, in := range b.Instrs {
+				fa, method, call := eng.AtomicOp(in)
+				if fa == nil || eng.FieldKeyOfAddr(fa) != "kv.store.familySeq" || method != "Store" {
+					continue
+				}
+				args := eng.CallArgs(call)
+				v := args[len(args)-1]
+				c.Check(!eng.DependsOnField(v, "kv.FamilyOption.ID") || p.FuncKey(fn) != "kv.store.CreateFamily", "sequence-set@"+p.FuncKey(fn), in, fn,
+					"the family sequence is set only from the persisted store info (on open), never from a CreateFamily argument", "stores "+p.Desc(v))
+				if p.FuncKey(fn) != "kv.store.CreateFamily" {
+					nSeq++
+					// on open the sequence continues after the largest persisted ID (ids are not dense: a failed OPTIONS write burns one)
+					c.Check(eng.DependsOnField(v, "kv.FamilyOption.ID"), "sequence-restored-from-ids@"+p.FuncKey(fn), in, fn,
+						"on open the family sequence is restored from the persisted family ids (their maximum), not from how many families there are", "stores "+p.Desc(v))
+				}
+			}
+		}
+	}
+	c.Check(nSeq >= 1, "sequence-restored-on-open", nil, nil, "opening a store restores the family sequence", fmt.Sprintf("%d stores outside CreateFamily", nSeq))
 }
